@@ -24,7 +24,12 @@ pub struct Violation {
 }
 
 impl Violation {
-    pub fn new(property: &str, clause: &str, fingerprint: impl Into<String>, detail: impl Into<String>) -> Self {
+    pub fn new(
+        property: &str,
+        clause: &str,
+        fingerprint: impl Into<String>,
+        detail: impl Into<String>,
+    ) -> Self {
         Violation {
             property: property.into(),
             clause: clause.into(),
@@ -80,8 +85,15 @@ impl RunReport {
             *e += 1;
         }
     }
-    pub fn violate(&mut self, property: &str, clause: &str, fingerprint: impl Into<String>, detail: impl Into<String>) {
-        self.violations.push(Violation::new(property, clause, fingerprint, detail));
+    pub fn violate(
+        &mut self,
+        property: &str,
+        clause: &str,
+        fingerprint: impl Into<String>,
+        detail: impl Into<String>,
+    ) {
+        self.violations
+            .push(Violation::new(property, clause, fingerprint, detail));
     }
 }
 
@@ -127,9 +139,9 @@ impl KnownFindings {
         }
     }
     pub fn lookup(&self, v: &Violation) -> Option<&KnownFinding> {
-        self.findings
-            .iter()
-            .find(|k| k.property == v.property && k.clause == v.clause && v.fingerprint.contains(&k.pattern))
+        self.findings.iter().find(|k| {
+            k.property == v.property && k.clause == v.clause && v.fingerprint.contains(&k.pattern)
+        })
     }
 }
 
@@ -238,16 +250,22 @@ pub fn write_replay(root: &Path, rf: &ReplayFile) -> PathBuf {
     let mut h = Fnv::new();
     h.write(rf.fingerprint.as_bytes());
     h.write(rf.clause.as_bytes());
-    let path = dir.join(format!("{}-{}-{:08x}.json", rf.property, rf.seed, h.finish() as u32));
+    let path = dir.join(format!(
+        "{}-{}-{:08x}.json",
+        rf.property,
+        rf.seed,
+        h.finish() as u32
+    ));
     std::fs::write(&path, serde_json::to_vec_pretty(rf).unwrap()).expect("write replay file");
     path
 }
 
 /// `check <id> --replay FILE`: re-execute a replay file in a fresh process.
 pub fn replay(ctx: &Ctx, path: &Path) -> i32 {
-    let rf: ReplayFile = match std::fs::read(path).map_err(|e| e.to_string()).and_then(|b| {
-        serde_json::from_slice(&b).map_err(|e| e.to_string())
-    }) {
+    let rf: ReplayFile = match std::fs::read(path)
+        .map_err(|e| e.to_string())
+        .and_then(|b| serde_json::from_slice(&b).map_err(|e| e.to_string()))
+    {
         Ok(r) => r,
         Err(e) => {
             eprintln!("harness error: cannot load replay file: {e}");
@@ -264,7 +282,10 @@ pub fn replay(ctx: &Ctx, path: &Path) -> i32 {
     };
     let target = Violation::new(&rf.property, &rf.clause, rf.fingerprint.clone(), "");
     let hash = format!("{:016x}", r.event_hash);
-    println!("replay: property={} clause={} fingerprint={}", rf.property, rf.clause, rf.fingerprint);
+    println!(
+        "replay: property={} clause={} fingerprint={}",
+        rf.property, rf.clause, rf.fingerprint
+    );
     println!("replay: event_hash recorded={} now={}", rf.event_hash, hash);
     match r.violations.iter().find(|v| v.same_class(&target)) {
         Some(v) => {
@@ -273,7 +294,11 @@ pub fn replay(ctx: &Ctx, path: &Path) -> i32 {
                 eprintln!("harness error: violation reproduced but the event log differs (nondeterminism)");
                 return 2;
             }
-            println!("VIOLATION property={} replay={}", rf.property, path.display());
+            println!(
+                "VIOLATION property={} replay={}",
+                rf.property,
+                path.display()
+            );
             1
         }
         None => {
@@ -282,7 +307,11 @@ pub fn replay(ctx: &Ctx, path: &Path) -> i32 {
                 0
             } else {
                 println!("replay: a different violation occurred: {:?}", r.violations);
-                println!("VIOLATION property={} replay={}", rf.property, path.display());
+                println!(
+                    "VIOLATION property={} replay={}",
+                    rf.property,
+                    path.display()
+                );
                 1
             }
         }
@@ -290,18 +319,32 @@ pub fn replay(ctx: &Ctx, path: &Path) -> i32 {
 }
 
 #[allow(clippy::too_many_arguments)]
-pub fn run_check(ctx: &Ctx, property: &str, level: &str, tier: &str, seed: u64, plan: &dyn Plan, threads: usize) -> CheckOutput {
+pub fn run_check(
+    ctx: &Ctx,
+    property: &str,
+    level: &str,
+    tier: &str,
+    seed: u64,
+    plan: &dyn Plan,
+    threads: usize,
+) -> CheckOutput {
     let t0 = Instant::now();
     let root = verif_root();
     let known = KnownFindings::load(&root);
     let full_total = plan.total();
     // VERIF_CASES=n: an evenly spaced sample of n case indices (used by the determinism self-test)
-    let sample: Option<Vec<usize>> = std::env::var("VERIF_CASES").ok().and_then(|s| s.parse::<usize>().ok()).filter(|n| *n > 0 && *n < full_total).map(|n| {
-        (0..n).map(|k| k * full_total / n).collect()
-    });
+    let sample: Option<Vec<usize>> = std::env::var("VERIF_CASES")
+        .ok()
+        .and_then(|s| s.parse::<usize>().ok())
+        .filter(|n| *n > 0 && *n < full_total)
+        .map(|n| (0..n).map(|k| k * full_total / n).collect());
     // VERIF_ONLY=i,j,...: exactly these case indices (debugging aid)
     let sample = match std::env::var("VERIF_ONLY") {
-        Ok(list) => Some(list.split(',').filter_map(|t| t.trim().parse::<usize>().ok()).collect::<Vec<_>>()),
+        Ok(list) => Some(
+            list.split(',')
+                .filter_map(|t| t.trim().parse::<usize>().ok())
+                .collect::<Vec<_>>(),
+        ),
         Err(_) => sample,
     };
     let total = sample.as_ref().map(|s| s.len()).unwrap_or(full_total);
@@ -487,7 +530,9 @@ pub fn run_check(ctx: &Ctx, property: &str, level: &str, tier: &str, seed: u64, 
     for (idx, v) in &all_viol {
         match known.lookup(v) {
             Some(k) => {
-                let e = known_hit.entry(format!("{}|{}", k.clause, k.pattern)).or_insert((k.what.clone(), *idx, 0));
+                let e = known_hit
+                    .entry(format!("{}|{}", k.clause, k.pattern))
+                    .or_insert((k.what.clone(), *idx, 0));
                 e.2 += 1;
             }
             None => unknown.push((*idx, v.clone())),
@@ -510,12 +555,21 @@ pub fn run_check(ctx: &Ctx, property: &str, level: &str, tier: &str, seed: u64, 
         }
         for (idx, v) in &classes {
             let n = unknown.iter().filter(|(_, u)| u.same_class(v)).count();
-            println!("class: clause={} fingerprint={} first_case={} count={} :: {}", v.clause, v.fingerprint, idx, n, v.detail);
+            println!(
+                "class: clause={} fingerprint={} first_case={} count={} :: {}",
+                v.clause, v.fingerprint, idx, n, v.detail
+            );
         }
         let dir = ctx.worker_dir(0);
         for (idx, v) in classes.iter().take(4) {
             let case = plan.case(*idx);
-            let (min_case, min_report, runs) = shrink(ctx, &dir, &case, v, if tier == "quick" { 400 } else { 1200 });
+            let (min_case, min_report, runs) = shrink(
+                ctx,
+                &dir,
+                &case,
+                v,
+                if tier == "quick" { 400 } else { 1200 },
+            );
             let detail = min_report
                 .violations
                 .iter()
@@ -536,22 +590,39 @@ pub fn run_check(ctx: &Ctx, property: &str, level: &str, tier: &str, seed: u64, 
                 original_case: Some(case),
             };
             let path = write_replay(&root, &rf);
-            println!("violation: clause={} fingerprint={} case={} :: {}", v.clause, v.fingerprint, idx, detail);
+            println!(
+                "violation: clause={} fingerprint={} case={} :: {}",
+                v.clause, v.fingerprint, idx, detail
+            );
             println!("VIOLATION property={} replay={}", property, path.display());
             reported.push(json!({"clause": v.clause, "fingerprint": v.fingerprint, "detail": detail, "replay": path.display().to_string(), "case_index": idx}));
         }
         if classes.len() > 4 {
-            println!("({} further violation classes not minimised)", classes.len() - 4);
+            println!(
+                "({} further violation classes not minimised)",
+                classes.len() - 4
+            );
         }
     }
 
     // ---- evidence ---------------------------------------------------------
     let wall = t0.elapsed().as_secs_f64();
     let evaluations = slots.len() as u64;
-    let per_hour = |n: u64| if wall > 0.0 { (n as f64 / wall * 3600.0) as u64 } else { 0 };
+    let per_hour = |n: u64| {
+        if wall > 0.0 {
+            (n as f64 / wall * 3600.0) as u64
+        } else {
+            0
+        }
+    };
     let faults_json: serde_json::Map<String, Value> = faults
         .iter()
-        .map(|(k, (c, fr, ft))| (k.clone(), json!({"configured_in_runs": c, "fired_in_runs": fr, "fired_total": ft})))
+        .map(|(k, (c, fr, ft))| {
+            (
+                k.clone(),
+                json!({"configured_in_runs": c, "fired_in_runs": fr, "fired_total": ft}),
+            )
+        })
         .collect();
     let stuck: Vec<String> = plan
         .required_probes()
@@ -602,11 +673,21 @@ pub fn run_check(ctx: &Ctx, property: &str, level: &str, tier: &str, seed: u64, 
     let ev_path = ev_dir.join(format!("{property}.json"));
     if std::env::var("VERIF_SHOW").is_ok() {
         for s in &slots {
-            println!("case {}: {}", s.idx, serde_json::to_string(&plan.case(s.idx)).unwrap());
+            println!(
+                "case {}: {}",
+                s.idx,
+                serde_json::to_string(&plan.case(s.idx)).unwrap()
+            );
+            println!(
+                "history {}: {}",
+                s.idx,
+                serde_json::to_string(&s.report.history).unwrap()
+            );
         }
     }
     if sample.is_none() && full_total == total {
-        std::fs::write(&ev_path, serde_json::to_vec_pretty(&evidence).unwrap()).expect("write evidence");
+        std::fs::write(&ev_path, serde_json::to_vec_pretty(&evidence).unwrap())
+            .expect("write evidence");
     } else {
         println!("(sampled self-test run: evidence file not rewritten)");
     }
